@@ -327,6 +327,9 @@ Definition encrypt_cek (a : jwe_alg_row) (s : ser) (prot : dict) (unprot : pv) (
            (cek : bytes) : res (dict * recip * bytes) :=
   if fam_is (ea_family a) "RSA" then
     do _ <- check_key_type a (r_key r);
+    do bits <- o_rsa_bits O (k_id (r_key r));
+    (* "A key of size 2048 bits or larger MUST be used" (encryption side only) *)
+    if bits <? key_size_of a then Err (EJose InvalidKeyLengthError) else
     do ek <- o_rsa_enc O (k_id (r_key r)) (asc (ea_pad a)) cek;
     Ok (prot, r, ek)
   else if fam_is (ea_family a) "AESKW" then
